@@ -8,9 +8,8 @@ RULE = ('one case = a real KeyspaceGroup/KeyspaceActor over a fault-injecting St
         'with arbitrary stamps (older, newer, beyond the forgiveness window, 1-3 origins), both sources, any arrival order, bulk sizes 0-6; storage failures injected at every kind of point: single call fails, '
         'bulk call writes an arbitrary sub-list and reports it, tombstone removal partially fails. After EVERY request the set (Serialize -> diff against empty) and the store (iter_metadata) are printed: '
         'the python oracle checks the property (live id @t in the set <=> document @t in the store; tombstone @t <=> tombstone row @t) and the Lean node model is compared line by line. '
-        'A separate stream repeats ids inside one bulk request (D13 scope: outside the theorem hypothesis, reported separately). non-trivial = at least one refused and one applied document, or an injected failure; distinct by hash')
-ASSUMPTIONS = ['storage failures follow the contract documented on BulkMutationError (a failed bulk call reports exactly what it wrote); single calls fail without effect',
-               'bulk requests of the checked stream carry pairwise distinct ids (the public put_many/del_many API cannot produce repeated ids with different stamps)']
+        'One case in three repeats ids inside one bulk request, with ascending, descending and equal stamps (what a replica receives when the distributor batched two mutations of one key, D13). non-trivial = at least one refused and one applied document, or an injected failure; distinct by hash')
+ASSUMPTIONS = ['storage failures follow the contract documented on BulkMutationError (a failed bulk call reports exactly what it wrote); single calls fail without effect']
 TRUSTED_BASE = ['correspondence: dcharness (real KeyspaceActor handlers through the puppet mailbox, real MemStore/SQLite behind a fault-injecting wrapper) vs dcdriver (Datacake.Keyspace node model)']
 THEOREM_NOTE = 'Datacake.Keyspace.onSet/onDel/onMultiSet/onMultiDel/onPurge (Model/Keyspace.lean)'
 JOBS = 8
@@ -36,7 +35,7 @@ def generate(rng, tier):
     cases = []
     for i in range(n):
         backend = 'sqlite' if (tier != 'quick' and i % 20 == 0) else 'mem'
-        cases.append(gen_case(rng.fork(), i, backend, dups=(i % 10 == 9)))
+        cases.append(gen_case(rng.fork(), i, backend, dups=(i % 3 == 2)))
     return cases
 
 
@@ -55,7 +54,7 @@ def oracle(case, impl):
             if 'unavailable' in out:
                 bad.append('state unavailable'); continue
             live, dead, sl, sd = parse_state(out)
-            if (live != sl or dead != sd) and not dups:
+            if live != sl or dead != sd:
                 bad.append('after `%s`: set live=%s dead=%s but store live=%s tombstones=%s' % (last[:70] if last else '?', live, dead, sl, sd))
         else:
             last = line
